@@ -36,7 +36,16 @@ def load_units():
     units = []
     for fn in sorted(os.listdir(UNITS_DIR)):
         if fn.endswith('.json'):
-            for u in json.load(open(os.path.join(UNITS_DIR, fn))):
+            entries = json.load(open(os.path.join(UNITS_DIR, fn)))
+            defaults = [e for e in entries if 'defaults_for_file' in e]
+            for u in entries:
+                if 'defaults_for_file' in u:
+                    continue
+                for d in defaults:
+                    if d['defaults_for_file'] == u.get('file'):
+                        for k, v in d.items():
+                            if k != 'defaults_for_file':
+                                u.setdefault(k, v)
                 u.setdefault('_defined_in', fn)
                 units.append(u)
     names = [u['name'] for u in units]
